@@ -25,7 +25,7 @@ META = {
 REQUIRED_REACH = ['kinematics/arm_model.py:Arm.inverseDynamics', 'kinematics/arm_model.py:Arm.inverseDynamicsEMR', 'kinematics/arm_model.py:Arm.massMatrix', 'kinematics/arm_model.py:Arm.forwardDynamics', 'kinematics/arm_model.py:Arm.forwardDynamicsE', 'kinematics/arm_model.py:Arm.coriolisGravity']
 REQUIRED_CLAUSES = ["mass.spd", "mass.sum_JGJ", "fd_inverts_id", "decomposition", "tip_term", "coriolis_power", "gravity_gradient",
                     "arm.inverseDynamics", "arm.inverseDynamicsC", "arm.inverseDynamicsEMR", "arm.massMatrix", "arm.coriolisGravity",
-                    "arm.forwardDynamics", "arm.forwardDynamicsE", "energy_conservation", "arm.integrate"]
+                    "arm.forwardDynamics", "arm.forwardDynamicsE", "energy_conservation", "arm.integrate", "arm.defaults"]
 
 
 def plan(tier, seed):
@@ -310,6 +310,32 @@ def evaluate_arm(arm, chain, st, ctx, mr, case, kind, stage):
     cmp("arm.forwardDynamics", lambda: arm.forwardDynamics(q.copy(), qd.copy(), tau_in.copy(), g.copy(), F.copy()), fd_ref, scf, 1e-8 * max(1.0, cond / 1e3))
     cmp("arm.forwardDynamicsE", lambda: arm.forwardDynamicsE(q.copy(), qd.copy(), tau_in.copy(), g.copy(), F.reshape((6, 1)).copy())[0], fd_ref, scf,
         1e-8 * max(1.0, cond / 1e3))
+    # the tip wrench given as the library's own Wrench object (what the signatures announce)
+    from basic_robotics.general import Wrench
+    cmp("arm.inverseDynamicsEMR", lambda: arm.inverseDynamicsEMR(q.copy(), qd.copy(), qdd.copy(), g.copy(), Wrench(F.reshape((6, 1)).copy())), tau_ref, sc)
+    cmp("arm.inverseDynamics", lambda: arm.inverseDynamics(q.copy(), qd.copy(), qdd.copy(), g.copy(), Wrench(F.reshape((6, 1)).copy()))[0], tau_ref, sc)
+    cmp("arm.forwardDynamics", lambda: arm.forwardDynamics(q.copy(), qd.copy(), tau_in.copy(), g.copy(), Wrench(F.reshape((6, 1)).copy())), fd_ref, scf, 1e-8 * max(1.0, cond / 1e3))
+    cmp("arm.forwardDynamicsE", lambda: arm.forwardDynamicsE(q.copy(), qd.copy(), tau_in.copy(), g.copy(), Wrench(F.reshape((6, 1)).copy()))[0], fd_ref, scf,
+        1e-8 * max(1.0, cond / 1e3))
+    # defaulted arguments: gravity from the arm's own setting, no tip wrench, joint vector from the arm's state
+    tau0_ref = np.asarray(mr.InverseDynamics(q.copy(), qd.copy(), qdd.copy(), g.copy(), np.zeros(6), Mlc, list(Gl), Sc), dtype=float)
+    fd0_ref = np.asarray(mr.ForwardDynamics(q.copy(), qd.copy(), tau_in.copy(), g.copy(), np.zeros(6), Mlc, list(Gl), Sc), dtype=float)
+    try:
+        arm.setGrav(g.copy())
+    except Exception as e:
+        ctx.violation("arm.defaults", "arm.defaults/setGrav_raises", {"exc": repr(e)[:200]}, case)
+        return
+    sc0 = float(np.linalg.norm(tau0_ref)) + float(np.linalg.norm(M_ref)) * float(np.linalg.norm(qdd))
+    cmp("arm.defaults", lambda: arm.inverseDynamics(q.copy(), qd.copy(), qdd.copy())[0], tau0_ref, sc0)
+    cmp("arm.defaults", lambda: arm.inverseDynamicsEMR(q.copy(), qd.copy(), qdd.copy()), tau0_ref, sc0)
+    cmp("arm.defaults", lambda: arm.forwardDynamics(q.copy(), qd.copy(), tau_in.copy()), fd0_ref, float(np.linalg.norm(fd0_ref)), 1e-8 * max(1.0, cond / 1e3))
+    cmp("arm.defaults", lambda: arm.forwardDynamicsE(q.copy(), qd.copy(), tau_in.copy())[0], fd0_ref, float(np.linalg.norm(fd0_ref)), 1e-8 * max(1.0, cond / 1e3))
+    if np.all(np.abs(q) <= 2 * PI):
+        try:
+            arm.FK(q.copy())
+            cmp("arm.defaults", lambda: arm.massMatrix(), M_ref, float(np.linalg.norm(M_ref)))
+        except Exception as e:
+            ctx.violation("arm.defaults", "arm.defaults/raises", {"exc": repr(e)[:200]}, case)
 
 
 def check_arm(chain, st, ctx, bm, mr, case, kind):
